@@ -3,7 +3,7 @@
 UNIT_RLIMIT = {}      # unit -> --rlimit
 UNIT_TIMEOUT = {}     # unit -> seconds
 UNIT_EXPECT = {       # unit -> minimum number of verified functions on the unchanged tree (vacuity guard)
-    "core": 31, "add": 29, "kernels": 79, "addmul": 71, "addmul_n": 73,
+    "core": 31, "add": 29, "kernels": 79, "addmul": 71, "addmul_n": 73, "mul": 51,
 }
 
 COMMON_TRUST = [
@@ -65,5 +65,24 @@ PROPS = {
                     "(value modulo 2^(64 len) and flag <=> true sum does not fit)",
         trusted=COMMON_TRUST,
         not_decided=["shift_left_small / shift_right_small and add_nx1 for slice lengths other than 0,1,3,6 (Kani per length only)"],
+    ),
+    "C02": dict(
+        level="proof",
+        level_text="Verus proves, for every BITS/LIMBS, that overflowing_mul/wrapping_mul/checked_mul/saturating_mul return a*b mod 2^BITS with the flag a*b >= 2^BITS and that widening_mul "
+                   "returns the full product for every (BITS, BITS_RHS), modular over the proved contracts of addmul, addmul_n (incl. the unrolled addmul_1..4), addmul_nx1, mac and the DoubleWord helpers",
+        level_note="assumed: add_nx1's contract (Kani per length), slice-length axiom, core integer specs; NOT decided: inv_ring for BITS > 8 (Wrapping<u64> Newton block and the operator-based lifting loop are "
+                   "outside the Verus units; Kani: BITS 1, 8 (16 in thorough)), Product beyond 2 elements, the Mul/MulAssign operator impls (macro-generated forwards to wrapping_mul; checked by Kani for add/sub only)",
+        technique="deductive contracts (Verus, all widths) over the real multiplication code; Kani for inv_ring/Product at tiny widths",
+        units=["core", "kernels", "addmul", "addmul_n", "mul"],
+        kani=dict(
+            features=None,
+            quick=["c02::c02_inv_ring_cond_w0", "c02::c02_inv_ring_w1", "c02::c02_inv_ring_w8", "c02::c02_product_w8"],
+            thorough=["c02::c02_inv_ring_cond_w0", "c02::c02_inv_ring_w1", "c02::c02_inv_ring_w8", "c02::c02_inv_ring_w16", "c02::c02_product_w8"],
+            timeout_thorough=3000,
+            bounds="inv_ring: BITS in {0,1,8,16} all values; Product: <= 2 elements at 8 bits",
+        ),
+        explanation="the property's sentences about products are postconditions of the Uint methods over val(); every function between them and the u128 multiply is under contract",
+        trusted=COMMON_TRUST,
+        not_decided=["inv_ring above 16 bits", "iterator Product beyond 2 elements", "Mul/MulAssign operator shapes (forwarding only)"],
     ),
 }
